@@ -18,6 +18,7 @@ type wconn struct {
 	role string // idle sleeper joiner
 	stmt string // the blocking statement
 	done chan error
+	stop context.CancelFunc // aborts the blocking statement client-side (the driver drops the connection)
 }
 
 func openConn(srv *core.Srv) (*wconn, error) {
@@ -173,6 +174,12 @@ func runScenario(r *core.Run, eng *core.Eng, srv *core.Srv, sc scenario) (vio ma
 	var workers []*wconn
 	all := []*wconn{ctl}
 	defer func() {
+		// on an early return statements may still be blocked: abort them first, (*sql.Conn).Close waits for them
+		for _, w := range all {
+			if w.stop != nil {
+				w.stop()
+			}
+		}
 		for _, w := range all {
 			w.close()
 		}
@@ -195,9 +202,11 @@ func runScenario(r *core.Run, eng *core.Eng, srv *core.Srv, sc scenario) (vio ma
 	for _, w := range workers {
 		if w.stmt != "" {
 			w.done = make(chan error, 1)
+			bctx, stop := context.WithCancel(context.Background())
+			w.stop = stop
 			go func(w *wconn) {
 				var v dsql.NullString
-				w.done <- w.conn.QueryRowContext(context.Background(), w.stmt).Scan(&v)
+				w.done <- w.conn.QueryRowContext(bctx, w.stmt).Scan(&v)
 			}(w)
 		}
 	}
@@ -493,11 +502,18 @@ func serverScenarios(r *core.Run, eng *core.Eng, srv *core.Srv) {
 	}
 	s.MustExec(b.String())
 	n := r.N(30, 400)
-	reruns := 0
+	reruns, stalls := 0, 0
 	r.Parallel("server", 1, func(int) {
 		for i := 0; i < n; i++ {
+			if stalls >= 3 { // every stall costs a full watchdog: stop after three, the rest stays unexamined
+				r.Inconclusive("server-scenarios-skipped-after-repeated-stalls")
+				continue
+			}
 			sc := genScenario(r.Rand("server", i), i)
 			vio, stuck, incon := runScenario(r, eng, srv, sc)
+			if stuck != "" {
+				stalls++
+			}
 			if stuck != "" && len(vio) > 0 {
 				// something was already refuted before the stage got stuck: report that, do not wait again
 				for sig, detail := range vio {
